@@ -218,11 +218,10 @@ func blocks(thorough bool) []blockDesc {
 			add("cycle", n, k, true, rootsSingle)
 		}
 	}
-	// place: every placement of the call sites
-	for n := 1; n <= 2; n++ {
-		for k := 0; k <= 1; k++ {
-			add("place", n, k, false, rootsSingle)
-		}
+	// place: every placement of the call sites (n = 1: every root assignment; n = 2: every single root)
+	for k := 0; k <= 1; k++ {
+		add("place", 1, k, false, rootsSingle)
+		add("place", 2, k, false, rootsOne)
 	}
 	// style: surface syntax variants, both element layouts
 	for n := 1; n <= 2; n++ {
@@ -245,12 +244,23 @@ func blocks(thorough bool) []blockDesc {
 	}
 	if thorough {
 		add("graph", 4, 0, false, rootsSingle)
-		add("graph1", 4, 1, false, rootsOne)
+		// n = 4 with the import: every graph in which at most one node calls the import, one root
+		for _, e := range edgeSets(4, 1, false) {
+			callers := 0
+			for i := 0; i < 4; i++ {
+				if e&(1<<(uint(i)*5+impIdx)) != 0 {
+					callers++
+				}
+			}
+			if callers <= 1 {
+				out = append(out, blockDesc{Fam: "graph1", N: 4, K: 1, Edges: e, Mode: rootsOne})
+			}
+		}
 		add("multi", 3, 0, false, rootsMulti)
-		add("multi", 3, 1, false, rootsMulti)
 		add("cycle", 3, 0, true, rootsSingle)
 		add("cycle", 3, 1, true, rootsOne)
 		add("place", 3, 0, false, rootsOne)
+		add("place", 2, 1, false, rootsSingle)
 	}
 	return out
 }
@@ -276,7 +286,7 @@ func expand(b blockDesc, thorough bool) []Spec {
 		}
 	case "place":
 		depth := 2
-		if thorough && b.N <= 2 {
+		if thorough && b.N <= 2 && b.Mode == rootsOne || thorough && b.N == 1 {
 			depth = 3
 		}
 		if b.Edges == 0 {
